@@ -163,14 +163,24 @@ func (channel *Channel) handleIncoming() {
 				}
 				channel.logger.Debug("Incoming method <- " + method.Name())
 
+				if channel.discardWhileClosing(method) {
+					break
+				}
+
 				if err := channel.handleMethod(method); err != nil {
 					channel.sendError(err)
 				}
 			case amqp.FrameHeader:
+				if channel.discardWhileClosing(nil) {
+					break
+				}
 				if err := channel.handleContentHeader(frame); err != nil {
 					channel.sendError(err)
 				}
 			case amqp.FrameBody:
+				if channel.discardWhileClosing(nil) {
+					break
+				}
 				if err := channel.handleContentBody(frame); err != nil {
 					channel.sendError(err)
 				}
@@ -179,6 +189,19 @@ func (channel *Channel) handleIncoming() {
 			verifhook.Exit("channel.frame")
 		}
 	}
+}
+
+// discardWhileClosing implements the rule that after the broker has sent channel.close
+// every frame except channel.close and channel.close-ok is discarded (method == nil: content frame)
+func (channel *Channel) discardWhileClosing(method amqp.Method) bool {
+	if channel.status != channelClosing {
+		return false
+	}
+	if method == nil || method.ClassIdentifier() != amqp.ClassChannel {
+		return true
+	}
+	id := method.MethodIdentifier()
+	return id != amqp.MethodChannelClose && id != amqp.MethodChannelCloseOk
 }
 
 func (channel *Channel) sendError(err *amqp.Error) {
